@@ -4,6 +4,7 @@
    and times; check_case recomputes all of it with the model (LeafCert.issue, LeafCertSpec.x509_ok). *)
 From Coq Require Import List Bool NArith ZArith.
 From MV Require Import Base.Bytes Model.LeafCert Model.LeafCertSpec Gen.LeafCertConst.
+From MV Require Model.LeafCertCtx.
 Import ListNotations.
 
 (* the idna codec on the non-ASCII strings of this case, as computed by CPython *)
@@ -23,7 +24,9 @@ Inductive case :=
 | Issue (tab : idna_tab) (issuer : ca) (serial : N) (now tz : Z) (r : req) (out : outcome) (vs : list verdict)
 | Pair (tab : idna_tab) (issuer : ca) (serial : N) (now tz : Z) (r1 r2 : req) (out1 out2 : outcome) (same : bool)
 | Ip (s : bytes) (impl : option (bytes * option bytes * bytes))       (* packed, scope id, str(ip) *)
-| Idna (s : bytes) (impl : option bytes).                             (* ASCII str.encode(idna) *)
+| Idna (s : bytes) (impl : option bytes)                              (* ASCII str.encode(idna) *)
+| Ctx (ops : list LeafCertCtx.op) (shown : list (N * bool)).          (* per handshake: CA that issued the leaf,
+                                                                          its chain presented along *)
 
 Definition err_eqb (a b : err) : bool :=
   match a, b with EIdna, EIdna => true | EValue, EValue => true | _, _ => false end.
@@ -79,4 +82,9 @@ Definition check_case (c : case) : bool :=
       | _, _ => false
       end
   | Idna s impl => option_eqb bytes_eqb (idna_ascii s) impl
+  | Ctx ops shown =>
+      list_eqb (fun a b => (fst a =? fst b)%N && Bool.eqb (snd a) (snd b))
+               (map (fun x => (LeafCertCtx.leaf_ca x, LeafCertCtx.complete x))
+                    (LeafCertCtx.run DH_SHARED LeafCertCtx.init ops))
+               shown
   end.
